@@ -41,8 +41,8 @@ def pairsOf : List Nat → Option (List (Nat × Nat))
   | c :: l :: rest => (pairsOf rest).map ((c, l) :: ·)
   | _ => none
 
-/-- args: wb start idx len align side key[32] npairs (count len)* ; rejected unless well-formed and Σ count = idx -/
-def parseFrb (a : List Int) : Option Frb :=
+/-- args: wb start idx len align side key[32] npairs (count len)* ; rejected unless well-formed, Σ count = idx and `len ≤ cap` -/
+def parseFrbCap (cap : Nat) (a : List Int) : Option Frb :=
   if !allNonneg a then none else
   match a.map Int.toNat with
   | wb :: start :: idx :: len :: align :: side :: rest =>
@@ -52,11 +52,18 @@ def parseFrb (a : List Int) : Option Frb :=
       match pairsOf ps with
       | some prev =>
         if key.length = 32 && key.all (· < 256) && prev.length = np && (prev.map (·.1)).sum = idx
-            && wb ≤ 1 && side ≤ 2 && align < 64 && (wb = 1 || start = 0) && start < 2 ^ 64 && len ≤ 2 ^ 26
+            && wb ≤ 1 && side ≤ 2 && align < 64 && (wb = 1 || start = 0) && start < 2 ^ 64 && len ≤ cap
         then some { wb, start, idx, len, align, side, key, prev } else none
       | none => none
     | [] => none
   | _ => none
+
+/-- requests whose whole output is re-generated in Lean: at most 2^26 bytes -/
+def parseFrb (a : List Int) : Option Frb := parseFrbCap (2 ^ 26) a
+
+/-- big requests (`frbbig` / `frbwin`): only sampled windows are re-generated in Lean.  Cap 2^38 bytes = 2^32 blocks:
+the block counter never reaches 2^32 (such a request would need a 256 GiB buffer; out of reach of this check) -/
+def bigCap : Nat := 2 ^ 38
 
 /-- the environment of the harness: the k-th call of `randombytes` delivers `(key[i] + k) mod 256` -/
 def osOf (key : List Nat) : Nat → List Nat := fun k => key.map fun b => (b + k) % 256
@@ -107,6 +114,62 @@ def asmNonceClass (nonce : List Nat) : String :=
   let c := bytesClass "nonce" 1 nonce
   if c = "nonce*" then (if (nonce.drop 4).all (· = 0) then "nonce-hi32=0" else if (nonce.take 4).all (· = 0) then "nonce-lo32=0" else c) else c
 
+/-- class of the low `k` bits of a length: the small classes around the 64-byte block and the 256-byte fast path -/
+def lowClass (v : Nat) : String :=
+  if v = 0 then "0" else if v = 1 then "1" else if v < 64 then "<64" else if v = 64 then "64"
+  else if v < 256 then "<256" else if v = 256 then "256" else ">256"
+
+def scaleClass (len : Nat) : String :=
+  if len ≥ 2 ^ 33 then "≥2^33" else if len ≥ 2 ^ 32 then "≥2^32" else if len ≥ 2 ^ 31 then "≥2^31"
+  else if len ≥ 2 ^ 24 then "≥2^24" else "<2^24"
+
+/-- big request: magnitude of the length x class of its low 32 / low 16 bits x route through the assembly -/
+def bigClass (len : Nat) : String :=
+  s!"{scaleClass len}:lo32={lowClass (len % 2 ^ 32)}:lo16={lowClass (len % 2 ^ 16)}:{pathClass len}"
+
+/-- why the harness sampled this window (harness/salsa.cpp `windows_of`) -/
+def kindName (k : Nat) : String :=
+  match k with
+  | 0 => "head" | 1 => "tail" | 2 => "around-k·2^32" | 3 => "around-k·2^31" | 4 => "around-k·2^24" | 5 => "around-k·2^16"
+  | 6 => "last-256-boundary" | 7 => "last-64-boundary" | 8 => "at-len-mod-2^k" | 9 => "every-64MiB" | _ => "random"
+
+structure Win where
+  off : Nat
+  wlen : Nat
+  kind : Nat
+
+/-- `off wlen kind` in front of the request: a window of at most 256 bytes inside the request -/
+def parseWin (len : Nat) (off wlen kind : Int) : Option Win :=
+  if 0 ≤ off && 0 < wlen && wlen ≤ 256 && 0 ≤ kind && kind ≤ 10 && off.toNat + wlen.toNat ≤ len
+  then some { off := off.toNat, wlen := wlen.toNat, kind := kind.toNat } else none
+
+/-- state-machine part of a request's answer: seed calls so far and (white box) the statics after the request -/
+def frbStateModel (f : Frb) : FastRandom.State × FastRandom.State :=
+  let os := osOf f.key
+  let s0 := if f.wb = 1 then FastRandom.startAt f.start else FastRandom.start
+  let prevLens := f.prev.flatMap fun (c, l) => List.replicate c l
+  let s := FastRandom.runState os s0 prevLens
+  (s, FastRandom.next os s)
+
+/-- `frbbig`: model = state machine; red zone intact; portable C found 0 mismatching bytes (first mismatch = -1) -/
+def frbBigModel (f : Frb) : List Int :=
+  let (_, s') := frbStateModel f
+  intsN [s'.seeds, 1, 0] ++ [-1]
+    ++ (if f.wb = 1 then intsN (s'.nonce ++ [if s'.init then 1 else 0] ++ s'.key) else [])
+
+def frbBigSpec (f : Frb) : List Int :=
+  intsN [1, 1, 0] ++ [-1]
+    ++ (if f.wb = 1 then intsN (Salsa20.encodeLE 8 ((f.start + f.idx + 1) % 2 ^ 64) ++ [1] ++ f.key) else [])
+
+/-- `frbwin`: model = the state machine's key and nonce for this request, bytes by random access to the blocks -/
+def frbWinModel (f : Frb) (w : Win) : List Int :=
+  let (s, _) := frbStateModel f
+  intsN (FastRandom.output (fun k n _ => Salsa20.window k n w.off w.wlen) (osOf f.key) s f.len)
+
+/-- specification (closed form): bytes [off, off+wlen) of `stream key (LE64 (start+idx)) len` (`Nfl.C13.stream_window`) -/
+def frbWinSpec (f : Frb) (w : Win) : List Int :=
+  intsN (Salsa20.window f.key (Salsa20.encodeLE 8 ((f.start + f.idx) % 2 ^ 64)) w.off w.wlen)
+
 /-- model: run the state machine of Model/FastRandom over the recorded history, then serve this request -/
 def frbModel (f : Frb) : List Int :=
   let os := osOf f.key
@@ -156,6 +219,68 @@ def handlersP : List (String × PHandler) := [
         let kn ← bytes? rest 40
         pure (impl == [1, 1] ++ encodeData (Salsa20.stream (kn.take 32) (kn.drop 32) len.toNat))
       | _ => none }),
+  -- a request too long to be re-generated in Lean: the portable C verdict on the WHOLE buffer (mismatching bytes, first
+  -- mismatching offset) must be (0, -1); sampled windows follow as `frbwin` lines
+  ("frbbig", {
+    run := fun a => (parseFrbCap bigCap a).map fun f =>
+      { model := frbBigModel f, specOk := true,
+        cls := s!"big:{if f.wb = 1 then "wb" else "bb"}:{bigClass f.len}" ++
+          (if f.wb = 1 then ":" ++ magClass ((f.start + f.idx) % 2 ^ 64) else "") },
+    spec := fun a impl => (parseFrbCap bigCap a).map fun f => impl == frbBigSpec f,
+    why := fun a impl => match parseFrbCap bigCap a with
+      | some f =>
+        if (impl.drop 2).take 2 != [0, -1] then
+          s!"portable C Salsa20/20: {impl.getD 2 0} of the {f.len} bytes differ from stream(key, LE64 {(f.start + f.idx) % 2 ^ 64}, {f.len}), first at offset {impl.getD 3 0}"
+        else if impl.getD 1 0 != 1 then "bytes outside the caller's buffer were modified"
+        else "seeding count / statics after the request"
+      | none => "" }),
+  -- off wlen kind <frb lhs> => bytes [off, off+wlen) of the buffer
+  ("frbwin", {
+    run := fun a => match a with
+      | off :: wlen :: kind :: rest => do
+        let f ← parseFrbCap bigCap rest
+        let w ← parseWin f.len off wlen kind
+        pure { model := frbWinModel f w, specOk := true, cls := s!"win:{scaleClass f.len}:{kindName w.kind}" }
+      | _ => none,
+    spec := fun a impl => match a with
+      | off :: wlen :: kind :: rest => do
+        let f ← parseFrbCap bigCap rest
+        let w ← parseWin f.len off wlen kind
+        pure (impl == frbWinSpec f w)
+      | _ => none,
+    why := fun a _ => match a with
+      | off :: wlen :: _ :: rest => match parseFrbCap bigCap rest with
+        | some f => s!"bytes [{off}, {off + wlen}) of request {(f.start + f.idx) % 2 ^ 64} (len {f.len}) are not those of blocks {off.toNat / 64}… of the Salsa20/20 stream"
+        | none => ""
+      | _ => "" }),
+  -- the same two ops for direct calls of the assembly: len align side key[32] nonce[8]
+  ("salsa20asmbig", {
+    run := fun a => match a with
+      | len :: _ :: side :: rest => do
+        let kn ← bytes? rest 40
+        if len < 0 || len > bigCap || side < 0 || side > 2 then none
+        pure { model := [1, 0, -1], specOk := true, cls := s!"big:asm:{bigClass len.toNat}:{asmNonceClass (kn.drop 32)}" }
+      | _ => none,
+    spec := fun a impl => match a with
+      | _ :: _ :: _ :: rest => do
+        let _ ← bytes? rest 40
+        pure (impl == [1, 0, -1])
+      | _ => none }),
+  ("salsa20asmwin", {
+    run := fun a => match a with
+      | off :: wlen :: kind :: len :: _ :: _ :: rest => do
+        let kn ← bytes? rest 40
+        if len < 0 || len > bigCap then none
+        let w ← parseWin len.toNat off wlen kind
+        pure { model := intsN (Salsa20.window (kn.take 32) (kn.drop 32) w.off w.wlen), specOk := true,
+               cls := s!"win:asm:{scaleClass len.toNat}:{kindName w.kind}" }
+      | _ => none,
+    spec := fun a impl => match a with
+      | off :: wlen :: kind :: len :: _ :: _ :: rest => do
+        let kn ← bytes? rest 40
+        let w ← parseWin len.toNat off wlen kind
+        pure (impl == intsN (Salsa20.window (kn.take 32) (kn.drop 32) w.off w.wlen))
+      | _ => none }),
   ("salsa20block", {
     run := fun a => (bytes? a 64).map fun x => { model := intsN (Salsa20.hash x), specOk := true, cls := "core" },
     spec := fun a impl => (bytes? a 64).map fun x => impl == intsN (Salsa20.hash x) }),
@@ -190,6 +315,12 @@ def handlersP : List (String × PHandler) := [
   -- a child died (guard page hit, sanitizer, abort) while serving this request: never satisfies the property
   ("frbfault", {
     run := fun a => (parseFrb a).map fun _ => { model := [0], specOk := true, cls := "fault" },
+    spec := fun _ impl => some (impl == [0]) }),
+  ("frbbigfault", {
+    run := fun a => (parseFrbCap bigCap a).map fun _ => { model := [0], specOk := true, cls := "fault" },
+    spec := fun _ impl => some (impl == [0]) }),
+  ("salsa20asmbigfault", {
+    run := fun _ => some { model := [0], specOk := true, cls := "fault" },
     spec := fun _ impl => some (impl == [0]) }),
   ("salsa20asmfault", {
     run := fun _ => some { model := [0], specOk := true, cls := "fault" },
